@@ -649,6 +649,7 @@ class World:
         self.incs = {}
         self.cut = set()         # directed (src nick, dst nick) pairs that are unreachable
         self.behaviours = {}
+        self.hook_exceptions = 0
         sched = scenario.get('sched', {})
         self.delay_profile = sched.get('delay', {'kind': 'uniform', 'lo': 0.001, 'hi': 0.05})
         self.loop_period = tuple(sched.get('loop_period', (0.3, 1.0)))
@@ -1068,7 +1069,15 @@ class World:
                            args=args if name.startswith('send_') else None)
                 for cb in cbs.get(name, ()):
                     cb(inst, *args, **kw)
-                result = orig(*args, **kw)
+                try:
+                    result = orig(*args, **kw)
+                except Exception:
+                    # the last-resort guards of the code under test swallow the exception: what the monitors evaluate
+                    # after the dispatch must be evaluated all the same (the state reached is what the instance keeps)
+                    world.hook_exceptions += 1
+                    for cb in cbs.get(name + ':after', ()):
+                        cb(inst, *args, **kw)
+                    raise
                 for cb in cbs.get(name + ':after', ()):
                     cb(inst, *args, **kw)
                 return result
@@ -1082,7 +1091,15 @@ class World:
             def wrapper(*args, **kw):
                 for cb in cbs.get(name, ()):
                     cb(inst, *args, **kw)
-                result = orig(*args, **kw)
+                try:
+                    result = orig(*args, **kw)
+                except Exception:
+                    # the last-resort guards of the code under test swallow the exception: what the monitors evaluate
+                    # after the dispatch must be evaluated all the same (the state reached is what the instance keeps)
+                    world.hook_exceptions += 1
+                    for cb in cbs.get(name + ':after', ()):
+                        cb(inst, *args, **kw)
+                    raise
                 for cb in cbs.get(name + ':after', ()):
                     cb(inst, *args, **kw)
                 return result
